@@ -294,7 +294,11 @@ pub fn random_param_grammar(rng: &mut Rng, hostile: bool) -> String {
         }
     }
     let n_rules = rng.range(1, 3);
-    let lits = ["a", "b", "c", "d", "ab", "ba", ",", " ", "x", "0", "1"];
+    let lits: Vec<&str> = if hostile {
+        vec!["a", "b", "c", "d", "ab", "ba", ",", " ", "x", "0", "1"]
+    } else {
+        vec!["a", "b", "c", "d", ",", " ", "x", "0", "1"]
+    };
     let mut out = String::new();
     let init = if rng.chance(0.6) { "0x0".to_string() } else { value(rng, hostile) };
     out.push_str(&format!("start: {}r0::{}{}\n", if rng.chance(0.2) { "\"<\" " } else { "" }, init, if rng.chance(0.2) { " \">\"" } else { "" }));
@@ -306,14 +310,26 @@ pub fn random_param_grammar(rng: &mut Rng, hostile: bool) -> String {
         alts.push(format!("\"\"{guard}"));
         if !hostile {
             // ... and one way on, so that no state is a dead end or the end of the language
-            alts.push(format!("{:?} r{r}::_", rng.pick(&lits)));
+            alts.push(format!("\".\" r{r}::_"));
         }
+        let mut used: Vec<&str> = vec![];
         for _ in 0..n_alt {
             let mut a = String::new();
             if rng.chance(0.9) {
-                a.push_str(&format!("{:?} ", rng.pick(&lits)));
+                let l = *rng.pick(&lits);
+                // valid mode: one alternative per first literal (two alternatives that start alike make
+                // the grammar ambiguous: item counts explode and single runs take minutes)
+                if !hostile && used.contains(&l) {
+                    continue;
+                }
+                used.push(l);
+                a.push_str(&format!("{:?} ", l));
             } else {
-                a.push_str("/[a-c]{1,2}/ ");
+                if !hostile && used.contains(&"/rx/") {
+                    continue;
+                }
+                used.push("/rx/");
+                a.push_str("/[e-g]{1,2}/ ");
             }
             if rng.chance(0.85) {
                 let target = rng.below(n_rules);
